@@ -694,6 +694,19 @@ fn coerce_numeric_types(left: &DataType, right: &DataType) -> Result<DataType> {
         (Float64, _) | (_, Float64) => Ok(Float64),
         (Float32, _) | (_, Float32) => Ok(Float64),
 
+        // A decimal operand keeps its fraction: the integer side becomes a
+        // decimal of the same scale (38 digits hold every i64 up to scale 19).
+        // Without this arm the integer arms below won and the DECIMAL operand
+        // was cast to an integer: CAST(1.5 AS DECIMAL(10,2)) + 0 returned 1.
+        (Decimal128(_, s), Int64)
+        | (Decimal128(_, s), Int32)
+        | (Decimal128(_, s), Int16)
+        | (Decimal128(_, s), Int8)
+        | (Int64, Decimal128(_, s))
+        | (Int32, Decimal128(_, s))
+        | (Int16, Decimal128(_, s))
+        | (Int8, Decimal128(_, s)) => Ok(Decimal128(38, *s)),
+
         // Int64 for integers
         (Int64, _) | (_, Int64) => Ok(Int64),
         (Int32, _) | (_, Int32) => Ok(Int64),
